@@ -156,17 +156,28 @@ class Batch:
             for f in sorted(os.listdir(os.path.join(self.dir, "src"))):
                 if f.startswith("w") and f.endswith(".rs"):
                     sh(["sed", "-i", "-E", mut, os.path.join(self.dir, "src", f)])
-        # keep Cargo.lock of earlier builds if present (offline resolution is deterministic anyway)
         env = {"CARGO_TARGET_DIR": BIND_TARGET, "RUSTFLAGS": ""}
-        rc, out = sh(["cargo", "build", "--offline", "--quiet"], cwd=self.dir, timeout=3000, env=env)
-        self.build_s = time.time() - t0
-        if rc != 0:
-            self.compile_errors = out
-            return False
-        # the target dir is shared between batches: keep a private copy of the binary
-        src = os.path.join(BIND_TARGET, "debug", "bn-batch")
-        dst = os.path.join(self.dir, "bn-batch")
-        shutil.copy2(src, dst)
+        os.makedirs(BIND_TARGET, exist_ok=True)
+        import fcntl
+        # the target directory (and its `debug/bn-batch`) is shared by all batches of all checks: build AND copy
+        # the binary out while holding our own lock (cargo's lock is released when cargo exits)
+        with open(os.path.join(BUILD, "bind-target.lock"), "w") as lk:
+            fcntl.flock(lk, fcntl.LOCK_EX)
+            rc, out = 1, ""
+            for attempt in (1, 2):
+                try:
+                    rc, out = sh(["cargo", "build", "--offline", "--quiet"], cwd=self.dir, timeout=3000, env=env)
+                    break
+                except subprocess.TimeoutExpired:
+                    rc, out = 1, "cargo build of the batch crate timed out"
+                    self.c.notes.append(f"batch {self.name}: cargo build timed out (attempt {attempt})")
+            self.build_s = time.time() - t0
+            if rc != 0:
+                self.compile_errors = out
+                return False
+            src = os.path.join(BIND_TARGET, "debug", "bn-batch")
+            dst = os.path.join(self.dir, "bn-batch")
+            shutil.copy2(src, dst)
         self.binary = dst
         return True
 
@@ -201,8 +212,9 @@ def build_batches(c, name, items, emitter, max_retries=3):
             return None, dropped
         import re
         for k in bad:
-            m = re.search(r"(error[^\n]*)\n\s*--> src/w%d\.rs" % k, b.compile_errors)
-            dropped[index_map[k]] = (m.group(1) if m else "error")[:300]
+            # the first error whose primary span lies in this item: message + the span rustc prints
+            m = re.search(r"(error[^\n]*\n\s*--> src/w%d\.rs[^\n]*\n(?:[^\n]*\n){0,8})" % k, b.compile_errors)
+            dropped[index_map[k]] = (m.group(1) if m else "error")[:900]
         live = [it for k, it in enumerate(live) if k not in bad]
         index_map = [i for k, i in enumerate(index_map) if k not in bad]
     c.broken.append((f"bind-native build {name}", "still failing after dropping items: " + b.compile_errors[-2000:]))
@@ -305,12 +317,12 @@ def parse_report(fields):
         obs.setdefault(k, []).append(t)
     allocs = []
     for a in [x for x in d.get("allocs", "").split(",") if x]:
-        ad, s, al, tag, live = a.split(":")
-        allocs.append({"addr": int(ad), "size": int(s), "align": int(al), "tag": tag, "live": live == "1"})
+        ad, s, al, tag, live, idx = a.split(":")
+        allocs.append({"addr": int(ad), "size": int(s), "align": int(al), "tag": tag, "live": live == "1", "idx": int(idx)})
     frees = []
     for a in [x for x in d.get("frees", "").split(",") if x]:
-        ad, s, al, tag, by, old = a.split(":")
-        frees.append({"addr": int(ad), "size": int(s), "align": int(al), "tag": tag, "by": by, "old": old == "1"})
+        ad, s, al, tag, by, old, idx = a.split(":")
+        frees.append({"addr": int(ad), "size": int(s), "align": int(al), "tag": tag, "by": by, "old": old == "1", "idx": int(idx)})
     errs = [x for x in d.get("errs", "").split(",") if x]
     notes = [x for x in d.get("notes", "").split(";") if x]
     return {"obs": obs, "allocs": allocs, "frees": frees, "errs": errs, "notes": notes}
@@ -492,6 +504,7 @@ class Runner:
         out["import_handler"] = handler
         if m["result"] is not None:
             out["model_returned"] = self.rust_observe(m["result"], ret)
+        out["ledger_model"] = host.rq(f"ledger-import|{P}|{m['func']}|{vals_term(vals)}|{ret if ret is not None else '_'}")
         native.send(f"DRIVE|{m['key']}|(r{''.join(' ' + v for v in vals)})" + ("|keep" if keep else ""))
         ans = self.await_final(out)
         del out["import_handler"]
@@ -815,6 +828,26 @@ def ledger_counts(o):
     return impl, model
 
 
+def ledger_counts_import(o):
+    """(impl, model) of the per-class event counts of an import call, counted from the moment the driver has built
+    the arguments (`mark:args-built`): Cleanup temporaries + collections built by lifting; or None (maps / no mark)"""
+    lm = o.get("ledger_model") or ""
+    if not lm.startswith("ok ") or "call_report" not in o:
+        return None
+    kv = dict(x.split("=") for x in lm[3:].split(" "))
+    if kv["hasmap"] == "1":
+        return None
+    rep = o["call_report"]
+    marks = [n for n in rep["notes"] if n.startswith("mark:args-built:")]
+    if len(marks) != 1:
+        return None
+    base = int(marks[0].split(":")[2])
+    impl = {"galloc": sum(1 for a in rep["allocs"] if a["tag"] == "G" and a["idx"] >= base),
+            "hostfree": sum(1 for f in rep["frees"] if f["tag"] == "H"),
+            "gfree": sum(1 for f in rep["frees"] if f["tag"] == "G" and f["idx"] >= base)}
+    return impl, {k: int(kv[k]) for k in impl}
+
+
 def nz(blocks):
     return sorted((a, s, al) for a, s, al in blocks if s > 0)
 
@@ -922,9 +955,10 @@ def make_items(rng, n, features, corpus, replay_item=None):
     return items, stats
 
 
-def prune_batches(keep=30):
+def prune_batches(pid, keep=24):
+    """remove the oldest batch directories OF THIS PROPERTY (other checks' directories are theirs)"""
     if not os.path.isdir(BIND): return
-    ds = sorted((os.path.getmtime(os.path.join(BIND, d)), d) for d in os.listdir(BIND))
+    ds = sorted((os.path.getmtime(os.path.join(BIND, d)), d) for d in os.listdir(BIND) if d.startswith(f"b-{pid}-"))
     for _, d in ds[:-keep]:
         shutil.rmtree(os.path.join(BIND, d), ignore_errors=True)
 
@@ -939,12 +973,12 @@ def iter_batches(c, items, emitter, dropped, batch_size=20):
     """generator form of build_all: each batch is built right before it is used (bounded disk use)"""
     for b0 in range(0, len(items), batch_size):
         chunk = items[b0:b0 + batch_size]
-        name = "b-" + hashlib.sha1((worlds_spec(chunk) + os.environ.get("VERIF_BIND_MUTATE", "")).encode()).hexdigest()[:12]
+        name = f"b-{c.pid}-" + hashlib.sha1((worlds_spec(chunk) + os.environ.get("VERIF_BIND_MUTATE", "")).encode()).hexdigest()[:12]
         batch, dr = build_batches(c, name, chunk, emitter)
         for k, e in dr.items(): dropped[b0 + k] = e
         if batch is not None:
             yield batch, [b0 + k for k in batch.index_map]
-        prune_batches()
+        prune_batches(c.pid)
 
 
 def build_all(c, items, emitter, batch_size=20):
@@ -954,12 +988,12 @@ def build_all(c, items, emitter, batch_size=20):
     for b0 in range(0, len(items), batch_size):
         chunk = items[b0:b0 + batch_size]
         # item indices inside a batch are local; the package names keep the global index
-        name = "b-" + hashlib.sha1((worlds_spec(chunk) + os.environ.get("VERIF_BIND_MUTATE", "")).encode()).hexdigest()[:12]
+        name = f"b-{c.pid}-" + hashlib.sha1((worlds_spec(chunk) + os.environ.get("VERIF_BIND_MUTATE", "")).encode()).hexdigest()[:12]
         batch, dr = build_batches(c, name, chunk, emitter)
         for k, e in dr.items(): dropped[b0 + k] = e
         if batch is not None:
             out.append((batch, [b0 + k for k in batch.index_map]))
-    prune_batches()
+    prune_batches(c.pid)
     return out, dropped
 
 
@@ -979,10 +1013,17 @@ def flags_lift_rendering(batch):
 
 
 def classify_compile_error(err):
-    """stable class keys of the known ways generated Rust fails to compile"""
-    if "into_bytes" in err: return "rust-does-not-compile:raw-strings-owned-string-lowering"
-    if "cannot move out of type" in err and "non-copy array" in err: return "rust-does-not-compile:fixed-list-non-copy-import-param"
-    if "missing lifetime specifier" in err: return "rust-does-not-compile:borrowing-missing-lifetime"
+    """stable class keys of the known ways generated Rust fails to compile.  A known class needs BOTH the rustc
+    message and the construct of the defect in the first failing span; anything else is `other` (a new defect)"""
+    import re
+    first = err.split("\n")[0]
+    if "E0599" in first and "`into_bytes`" in first and "Vec<u8>" in first and re.search(r"\.into_bytes\(\)\)?\.into_boxed_slice\(\)", err):
+        return "rust-does-not-compile:raw-strings-owned-string-lowering"
+    if "E0508" in first and "non-copy array" in first and re.search(r"let vec\d+ = \w+(\.\w+)*\[\d+\];", err):
+        return "rust-does-not-compile:fixed-list-non-copy-import-param"
+    if "E0106" in first and "missing lifetime specifier" in first and re.search(r"pub \w+: [A-Z]\w*,", err) \
+            and "expected named lifetime parameter" in err:
+        return "rust-does-not-compile:borrowing-missing-lifetime"
     return "rust-does-not-compile:other"
 
 
